@@ -34,6 +34,14 @@ def open_hb(path: str, max_retry: Any, calls: list, who: int) -> Any:
     return backends.open_rdb(path, heartbeat_interval=1, grace_period=1, failed_trial_callback=counted)
 
 
+def postdate(path: str, trial_id: int) -> None:
+    """A 'fresh' heartbeat must stay fresh however slowly the run goes (real time is not ours)."""
+    con = sqlite3.connect(path)
+    con.execute("UPDATE trial_heartbeats SET heartbeat = datetime('now', '+1 hour') WHERE trial_id = ?", (trial_id,))
+    con.commit()
+    con.close()
+
+
 def backdate(path: str, trial_id: int) -> None:
     con = sqlite3.connect(path)
     con.execute("UPDATE trial_heartbeats SET heartbeat = datetime('now', '-1 hour') WHERE trial_id = ?", (trial_id,))
@@ -51,6 +59,14 @@ class World:
         self.calls: list = []
         self.storages = [open_hb(self.path, max_retry, self.calls, i) for i in range(n_workers + 1)]
         s0 = self.storages[-1]
+        # another study in the same database with its own stale RUNNING trial: a sweep of study c19
+        # must not touch it (the stale-trial query is per study)
+        other = optuna.create_study(storage=s0, study_name="c19-other", sampler=optuna.samplers.RandomSampler(seed=5))
+        ot = other.ask()
+        ot.suggest_float("x", 0, 1)
+        other._storage.record_heartbeat(ot._trial_id)
+        backdate(self.path, ot._trial_id)
+        self.other_trial_id = ot._trial_id
         self.study0 = optuna.create_study(storage=s0, study_name="c19", sampler=optuna.samplers.RandomSampler(seed=0))
         st = self.study0._storage
         self.protected: dict = {}
@@ -69,6 +85,7 @@ class World:
         fresh = self.study0.ask()
         fresh.suggest_float("x", 0, 1)
         st.record_heartbeat(fresh._trial_id)
+        postdate(self.path, fresh._trial_id)
         nohb = self.study0.ask()
         nohb.suggest_float("x", 0, 1)
         fin = self.study0.ask()
@@ -97,6 +114,8 @@ class World:
     def final(self) -> list:
         s = optuna.load_study(study_name="c19", storage=backends.open_rdb(self.path))
         out = s.get_trials(deepcopy=True)
+        self.other_final = s._storage.get_trial(self.other_trial_id).state.name
+        self.n_other = len(optuna.load_study(study_name="c19-other", storage=s._storage).get_trials(deepcopy=False))
         s._storage._backend.engine.dispose()
         return out
 
@@ -197,7 +216,7 @@ class Run:
             if errs:
                 raise InternalError(f"driver error {errs}")
             trials = w.final()
-            return {"events": events, "cas": cas, "calls": list(w.calls), "trials": [(t.number,) + World.canon(t) for t in trials],
+            return {"events": events, "cas": cas, "other_study": (w.other_final, w.n_other), "calls": list(w.calls), "trials": [(t.number,) + World.canon(t) for t in trials],
                     "snapshot": w.snapshot, "protected": w.protected_numbers, "stale": [w.stale] + ([w.stale2] if self.pattern == "two-stale" else []),
                     "deadlock": sched.deadlock, "steps": sched.step, "n_stmt": dict(world.n_stmt), "sql": world.log[-60:]}
         finally:
@@ -214,6 +233,8 @@ class Run:
                 if e[1] == "owner-completes" and e[2].split()[1].rstrip(":") in ("ValueError", "UpdateFinishedTrialError"):
                     continue  # the sweeper failed the trial first: the owner is told so (legitimate)
                 bad.append((f"{e[1]}-raised", e[2]))
+        if ex["other_study"] != ("RUNNING", 1):
+            bad.append(("stale-trial-of-ANOTHER-study-touched", str(ex["other_study"])))
         # protected trials untouched
         for n in ex["protected"]:
             if trials[n] != ex["snapshot"][n]:
